@@ -36,12 +36,12 @@ fn c_imc(x: u128) -> u128 {
     lift(ra::inv_mix_columns, x)
 }
 // unkeyed round bodies as uninterpreted functions (capacity: both sides of a query together)
-uf1!(uf_enc, u128, u128, [B0 B1 B2 B3], c_enc);
-uf1!(uf_last, u128, u128, [B0], c_last);
-uf1!(uf_dec, u128, u128, [B0 B1 B2 B3], c_dec);
-uf1!(uf_declast, u128, u128, [B0], c_declast);
-uf1!(uf_imc, u128, u128, [B0], c_imc);
-uf1!(uf_sb, u8, u8, [B0 B1 B2 B3 B4 B5], ra::sbox);
+cuf1!(uf_enc, vuf_ni_uf_enc, u128, u128, c_enc);
+cuf1!(uf_last, vuf_ni_uf_last, u128, u128, c_last);
+cuf1!(uf_dec, vuf_ni_uf_dec, u128, u128, c_dec);
+cuf1!(uf_declast, vuf_ni_uf_declast, u128, u128, c_declast);
+cuf1!(uf_imc, vuf_ni_uf_imc, u128, u128, c_imc);
+cuf1!(uf_sb, vuf_ni_uf_sb, u8, u8, ra::sbox);
 
 // oracle-side adapters
 pub fn o_enc(s: &ra::State) -> ra::State {
